@@ -451,6 +451,9 @@ def r165(ctx, rep):
             if v.cls.name.startswith('Tee') and v.cls.module.name.startswith('petl.io'):
                 n += 1
                 c01.r13(ctx, sub, v, found)
+            elif v.cls.fq == 'petl.util.materialise:CacheView':
+                # cache(): the memo is shared by all iterators; only the iterator that is at the end of it may extend it
+                c01.r13(ctx, sub, v, found)
     finally:
         ctx.report = saved
     for o in sub.obligations:
